@@ -96,7 +96,13 @@ def build(prop, tier, seed, pmod, ded, nat, extra, reg, n_obl, n_dis, vc_time, b
   ev = {
       'property_id': prop, 'tier': tier, 'seed': seed, 'level': level, 'coverage': cov,
       'assumptions': trusted + meta.get('assumptions', []) +
-                     ['precondition of %s: %s' % (m['name'], r_) for m in mine for r_ in m.get('requires', [])],
+                     ['precondition of %s: %s' % (m['name'], r_) for m in mine for r_ in m.get('requires', [])] +
+                     ['axiom assumed in %s (spec function / ghost introduction / pure callee): %s' % (m['name'], a_)
+                      for m in mine for a_ in m.get('axioms', [])] +
+                     ['ghost field of %s given by definition: %s := lambda %s: %s' % (m['name'], g_, d_[0], d_[2])
+                      for m in mine for g_, d_ in m.get('ghost_defs', {}).items()] +
+                     ['%s: hypotheses are filtered per obligation by `focus` hints (sound: hypotheses are only dropped)'
+                      % m['name'] for m in mine if any('focus' in l_ for l_ in m.get('loops', {}).values())],
       'wall_s': round(wall, 2), 'violations': n_viol,
   }
   return ev
